@@ -1436,7 +1436,18 @@ def r03_3_order_independence(ctx):
             it = f.copies.xnorm(n.iter)
             if it in ('generic_type_args(%s)' % et, 'enumerate(generic_type_args(%s))' % et):
                 loops.append(n)
-    if not loops:
+    # E13: whatever the spelling (one accumulating loop, or comprehensions over the materialised member verdicts), the set that is
+    # returned must be the union of recognize(node, m)[0] over all members m, unconditionally
+    from ..accflow import AccFlow, X as _X
+    A = AccFlow(f.fi.node, f.alpha)
+    want = ('union', 'self.recognize(%s, %s)[0]' % (f.fi.params[1], _X), f.alpha.text(ast.parse('generic_type_args(%s)' % et, mode='eval').body), None, True)
+    union_accs = [name for name, cs in A.acc.items() if cs is not None and len(cs) == 1 and cs[0].key() == want]
+    if union_accs:
+        r.ok('the Union verdict %s is UNION recognize(node, m)[0] for every member m of generic_type_args(%s) (E13)' % (union_accs[0], et))
+        r.ok('every member verdict is merged into the accumulator unconditionally')
+        ctx.extra.setdefault('_union_acc', union_accs[0])
+        loops = []
+    elif not loops:
         r.fail(f.key('no-member-loop'), f.loc(), '__recognize_union does not iterate over the Union members')
     for lo in loops:
         r.check(whole_collection_loop(lo), 'Union member loop has no break/return/continue', f.key('member-loop-exit'),
@@ -1585,6 +1596,11 @@ def r03_7_union(ctx):
                           'present; 0 or >= 2 members carry an error', floor=3)
     f = fn(P, REC + '__recognize_union')
     accs = {norm(x.targets[0]) for x in f.walk() if isinstance(x, ast.Assign) and norm(x.value) in ('set()',)}
+    # ... or a set that E13 shows to be the union of the member verdicts, however it is spelt
+    from ..accflow import AccFlow
+    A = AccFlow(f.fi.node, f.alpha)
+    accs |= {name for name, cs in A.acc.items() if cs is not None and len(cs) == 1 and cs[0].kind == 'union' and cs[0].whole
+             and cs[0].cond is None and 'self.recognize(' in cs[0].elem}
     acc = None
     for ret in f.returns():
         v = verdict(ret)
